@@ -3,7 +3,7 @@
 overlay field: absent = drafts/C04s2/pkg (deliverable); "proposed" = drafts/C04s2/proposed/pkg (needs PROPOSED_CHANGES.md)."""
 import json, os, shutil, subprocess, sys
 D='/verif/drafts/C04s2'
-entries=json.load(open(D+'/selftest.json'))
+entries=json.load(open(D+'/selftest.json'))+json.load(open(D+'/selftest_proposed.json'))+json.load(open(D+'/selftest_pending.json'))
 only=sys.argv[1:]
 bad=0
 for e in entries:
@@ -11,6 +11,7 @@ for e in entries:
     ov='/tmp/ov_C04s2_mut'
     shutil.rmtree(ov, ignore_errors=True); os.makedirs(ov)
     shutil.copytree(D+('/proposed/pkg' if e.get('overlay')=='proposed' else '/pkg'), ov+'/pkg')
+    if e.get('overlay')=='pending': shutil.copytree(D+'/pending/pkg', ov+'/pkg', dirs_exist_ok=True)
     src=open('/repo/'+e['file']).read()
     if e['old'] not in src:
         print('STALE', e['name']); bad+=1; continue
